@@ -27,6 +27,7 @@ func init() {
 			{ID: "C01.R4", Text: "every sequence-bearing stream-observer handler builds Offset.SeqNo from its own event's SeqNo without arithmetic", Run: c01r4},
 			{ID: "C01.R5", Text: "Checkpoint.Save dumps, per ranged key, Checkpoint.SeqNo ← offset.SeqNo of the tracked position map and hands exactly that map to Metadata.Save", Run: c01r5},
 			{ID: "C01.R6", Text: "Metadata.Save backends marshal the document they are given and derive the document id from the same vBucket id", Run: c01r6},
+			{ID: "C01.R8", Text: "the resume position is the stored one: Load builds each offset from the loaded document's own fields and never modifies a loaded document (same rule as C02.R2)", Run: c02r2},
 			{ID: "C01.R7", Text: "no store through a pointer to a field of models.Offset / models.SnapshotMarker outside the composite literal that allocates it", Run: immutableOffsets},
 		},
 	})
